@@ -57,9 +57,16 @@ class World:
             mods.append(m)
         changes = []
         T = rng.choice([200, 300, 600])
-        for _ in range(rng.choice([0, 0, 1, 2])):
+        for _ in range(rng.choice([0, 0, 1, 2, 4])):
             changes.append([round(rng.uniform(20, T - 60), 3), rng.randrange(nmod), rng.choice(['interval', 'fast-on', 'fast-off']),
                             rng.choice([0.1, 0.5, 1, 3, 10])])
+        if rng.random() < 0.25:
+            # the busy pattern: fast polling on, the interval is changed meanwhile, fast polling off
+            mi = rng.randrange(nmod)
+            t0 = round(rng.uniform(20, T - 120), 3)
+            changes = [c for c in changes if c[1] != mi]
+            changes += [[t0, mi, 'fast-on', rng.choice([0.1, 0.5])], [t0 + rng.choice([3, 10]), mi, 'interval', rng.choice([0.5, 2, 3, 10])],
+                        [t0 + rng.choice([15, 30]), mi, 'fast-off', 0]]
         changes.sort()
         return {'mods': mods, 'shared': shared, 'changes': changes, 'T': T, 'rngseed': rng.randrange(1 << 30)}
 
@@ -266,8 +273,10 @@ class World:
                 # ---- interval change takes effect from the next wake-up
                 for tc, _, kind, val in mine:
                     r.count('interval_changes_checked')
-                    newiv = interval_at(tc)
                     nxt = [x for x in t if x > tc]
+                    # later changes made before the next poll supersede this one
+                    upto = nxt[0] if nxt else t_end
+                    newiv = max([interval_at(tc)] + [interval_at(t2) for t2, _, _, _ in mine if tc < t2 <= upto])
                     bound = (newiv + S) * 1.01 + 1e-3
                     if tc + bound < t_end and (not nxt or nxt[0] - tc > bound):
                         r.violation(f'C13/interval-change-not-effective/{kind}', f'{name}: {kind} {val} at {tc:.3f}: next main poll after {(nxt[0] - tc) if nxt else None} s, bound {bound:.3f}',
